@@ -98,6 +98,8 @@ type World struct {
 	HoldUnlocked bool
 	// SameHost makes every attempt come from one address, as streams dialled from one machine do.
 	SameHost bool
+	// NoDrain leaves the operator channel to the driver's own receiver (Drain takes nothing).
+	NoDrain bool
 
 	pendingGated bool
 	// OnNewHalf, if set, is called for every new attempt before its Connect* call starts.
@@ -322,6 +324,9 @@ func (h *Half) WaitFinished(d time.Duration) (string, error) {
 // returns the newly taken lines.
 func (w *World) Drain() []opshell.CLine {
 	var got []opshell.CLine
+	if w.NoDrain {
+		return nil
+	}
 	for {
 		select {
 		case cl := <-w.Och:
